@@ -570,10 +570,11 @@ def classify(r):
         r.detail = "loop contract was not applied (no loop invariant obligations)"
         return
     bad = [p for p in real if p["status"] == "FAILURE"]
-    if bad and not c.unwind and all("unwinding assertion" in p["desc"] for p in bad):
-        # a loop without loop contract that the unchanged tree does not have here: nothing is decided about the property
+    if bad and all("unwinding assertion" in p["desc"] for p in bad):
+        # a loop that the unchanged tree does not have here (no loop contract, or more iterations than the stated bound): the paths inside the
+        # bound satisfy every clause, nothing is decided beyond it -- undecided, never a violation
         r.status = "undecided"
-        r.detail = "unexpected loop (no loop contract, default unwinding bound %d exceeded): %s" % (DEFAULT_UNWIND, [p["name"] for p in bad][:3])
+        r.detail = "unexpected loop (unwinding bound %s exceeded, no other obligation fails): %s" % (c.unwind or DEFAULT_UNWIND, [p["name"] for p in bad][:3])
         return
     if bad:
         r.status = "failed"  # properties CBMC reports UNKNOWN are those behind a failed one (assert-then-assume cascade)
